@@ -35,12 +35,17 @@ CLAIMS = {
              "__Pyx_SetItemInt_Fast on an exact list (exactly the wrapped slot is overwritten with v, or nothing is stored and the "
              "generic assignment gets an int object holding the ORIGINAL index), __Pyx_GetItemInt_Bytes_Fast (the byte as an int "
              "0..255 or IndexError) and __Pyx_{Get,Set}ItemInt_ByteArray_Fast_Locked (read / write of exactly one byte, IndexError, "
-             "nothing else changed). Kernel: integer indexing of exact lists, tuples, bytes and bytearrays; item assignment on lists "
-             "and bytearrays.",
+             "nothing else changed). And __Pyx_crop_slice, the bound normaliser behind l[a:b] / t[a:b] on typed lists and tuples: for ALL "
+             "Py_ssize_t start / stop and every length its outputs describe exactly the slice of CPython's PySlice_AdjustIndices (empty "
+             "iff that slice is empty, else the same start and length, inside the sequence), with no signed overflow. "
+             "Kernel: integer indexing of exact lists, tuples, bytes and bytearrays; item assignment on lists "
+             "and bytearrays; slice bounds of lists and tuples.",
         note="Trusted: dv C front end, dv/pyobj.py (element array model, PyList_GET_SIZE/PyTuple_GET_SIZE, generic access delegated to "
              "CPython; bytes / bytearray buffers as length + char array; PyList_SET_ITEM as a ghost store with a bounds obligation), "
              "z3. Unverified: str indexing (Unicode_Fast), DelItemInt, the non-list paths of SetItemInt (type slots), object indices, "
-             "slicing (SliceObject, PyUnicode_Substring), helper selection in IndexNode.",
+             "the callers of __Pyx_crop_slice (item copy), slicing of str / bytes / untyped objects (SliceObject, PyUnicode_Substring), "
+             "slice bounds outside Py_ssize_t, helper selection and None checks in IndexNode / SliceIndexNode (probe findings recorded "
+             "in DESIGN.md section 5 as observed, not claimed).",
         ref="4 C15"),
     "C09": dict(
         text="Proof of the data-structure contract of the numeric constant pool in Code.py (GlobalState.num_const_index as an abstract map "
@@ -127,7 +132,9 @@ CLAIMS = {
              "own list.pop on the UNCHANGED list with the original index; that __Pyx_PyList_Append, __Pyx_ListComp_Append and "
              "__Pyx_PyObject_Append (l.append(x), comprehensions) either store x in slot `size` INSIDE the allocated slots, raise the size by "
              "one and write nothing else, or call CPython's own PyList_Append on the unchanged list, or - for a non-list receiver - make "
-             "the Python-level call L.append(x) and map a NULL result to -1; (b) for a catalogue of builtin "
+             "the Python-level call L.append(x) and map a NULL result to -1; that Optimize._optimise_generic_builtin_method_call (the "
+             "transform that makes `obj.meth(..)` on a builtin-typed receiver call the method's cached C function directly) hands the "
+             "receiver to the cached call only through the None check of _wrap_self_arg; (b) for a catalogue of builtin "
              "calls on C integers (abs, min / max with 2-4 operands of mixed C types and constants, nested min/max, bool()) the C function "
              "the working-tree compiler emits returns, for ALL argument values, the value Python's semantics give the same source text "
              "(reference evaluator dv/pyref.py over the catalogue's own ast, validated against CPython every run). Kernel: these helpers "
@@ -200,7 +207,10 @@ CLAIMS = {
              "character by character for every value of T, every width and both paddings (loop unrolled to the type's digit bound with an "
              "unwinding assertion, per-iteration ghost lemmas); __Pyx_uchar_<T> / __Pyx_PyUnicode_FromOrdinal_Padded == format(v, '<0?><width>c') "
              "incl. OverflowError outside range(0x110000) and the RFC 3629 bytes given to PyUnicode_DecodeUTF8; __Pyx_PyUnicode_BuildFromAscii "
-             "(loop invariants, termination). Kernel: integer and character formatting helpers only.",
+             "(loop invariants, termination). BOUNDED stand-in (labelled, not counted as proved): CIntLike._parse_format, which decides which "
+             "f-string specs reach these helpers and with which (type, width, padding), exhaustively over every spec of length <= 4 over a "
+             "24-character alphabet: an accepted spec must mean under CPython's format() what the helper computes. "
+             "Kernel: integer and character formatting helpers only.",
         note="Trusted: dv C front end, dv/pystr.py (contracts of PyUnicode_New/WRITE/DecodeLatin1/DecodeUTF8/FromOrdinal/Concat, "
              "PySequence_Repeat; allocation never fails), the closed forms of the digit tables (checked against the initialisers every run), z3. "
              "Unverified: f-string node lowering (JoinedStrNode/FormattedValueNode choose helper, width, padding), %-format rewriting, "
